@@ -210,4 +210,12 @@ def sanitizeAux : Nat → Bytes → Bytes
 
 def sanitize (s : Bytes) : Bytes := sanitizeAux s.length s
 
+/-- What a JSON round trip makes of the string fields of post data (the text has a base64 form). -/
+def sanitizeParam (p : Param) : Param :=
+  { name := sanitize p.name, value := sanitize p.value, fileName := sanitize p.fileName,
+    contentType := sanitize p.contentType }
+
+def sanitizePD (p : PostData) : PostData :=
+  { mime := sanitize p.mime, params := p.params.map sanitizeParam, text := p.text }
+
 end Martian.Har
